@@ -15,7 +15,6 @@ import (
 	"github.com/inbucket/inbucket/v3/pkg/server/smtp"
 	"github.com/inbucket/inbucket/v3/pkg/server/web"
 	"github.com/inbucket/inbucket/v3/pkg/storage"
-	"github.com/inbucket/inbucket/v3/pkg/stringutil"
 	"github.com/inbucket/inbucket/v3/pkg/webui"
 )
 
@@ -56,7 +55,7 @@ func FullAssembly(conf *config.Root) (*Services, error) {
 	retentionScanner := storage.NewRetentionScanner(conf.Storage, store)
 
 	// Configure routes and build HTTP server.
-	prefix := stringutil.MakePathPrefixer(conf.Web.BasePath)
+	prefix := web.RoutePrefixer(conf.Web.BasePath)
 	webui.SetupRoutes(web.Router.PathPrefix(prefix("/serve/")).Subrouter())
 	rest.SetupRoutes(web.Router.PathPrefix(prefix("/api/")).Subrouter())
 	webServer := web.NewServer(conf, mmanager, msgHub)
